@@ -79,6 +79,7 @@ def run(ctx):
     # stdin wiring
     sc = [(bb, t) for bb, t in pp.calls(loop) if M.callee_str(t["f"]) == "builder::exec::Exec::stdin"]
     ctx.ob("R13.1", "stage-stdin.site", len(sc) == 1, pp.loc(0), "one Exec::stdin call in the loop (found %d)" % len(sc))
+    last_form = False
     for bb, t in sc:
         a = T.operand(t["args"][1])
         ok = a[0] == "call" and a[1] == "std::option::Option::<T>::unwrap" and a[2][0][0] == "call" and a[2][0][1] == "std::option::Option::<T>::take"
@@ -86,23 +87,19 @@ def run(ctx):
         if ok:
             tk = a[2][0]
             src = M.noref(tk[2][0])
-            ok = src[0] == "field" and src[2] == "stdout" and src[1][0] == "call"
+            ok = src[0] == "field" and src[2] == "stdout"
             prev_sel = M.strip(src[1]) if ok else None
+            ok = ok and prev_sel[0] == "call"
             if ok and prev_sel[0] == "call" and prev_sel[1].endswith("::last_mut"):
-                # `ret.last_mut()`: the vector holds exactly the idx stages started so far, so its last element is stage idx-1
-                lm_bb = prev_sel[3]
-                vec_ok = False
-                for b, tt in pp.calls(loop):
-                    if b == lm_bb:
-                        base_op = tt["args"][0]
-                        sl_ = T.addr(base_op)
-                        base_t = M.noref(M.strip(T.operand(base_op), also=("<std::vec::Vec<T, A> as std::ops::DerefMut>::deref_mut",)))
-                        # deref_mut(&mut ret): find the local behind it
-                        for b3, t3 in pp.calls(loop):
-                            if "deref_mut" in M.callee_str(t3["f"]) and t3["t"] == lm_bb:
-                                vec_ok = T.addr(t3["args"][0]) == ret_slot
-                ok = vec_ok
-                detail = "previous stage taken as ret.last_mut() of the result vector: %s" % vec_ok
+                # `ret.last_mut()`: the vector holds exactly the idx stages started so far (one push on every way round the loop), so its
+                # last element is stage idx-1 and it has none for the first stage
+                base_t = M.noref(M.strip(prev_sel[2][0], also=("<std::vec::Vec<T, A> as std::ops::DerefMut>::deref_mut",)))
+                vec_ok = base_t == M.noref(T.local(ret_slot[1][1]))
+                body_entry = [s_ for s_ in pp.succs(nxt[0][0]) if s_ in loop]
+                round_wo_push = any(nxt[0][0] in pp.reachable(s_, removed_blocks={pushes[0][0]}) for s_ in body_entry) if len(pushes) == 1 else True
+                ok = vec_ok and not round_wo_push
+                last_form = ok
+                detail = "previous stage taken as ret.last_mut() of the result vector: %s; every iteration pushes: %s" % (vec_ok, not round_wo_push)
             elif ok and "index" in src[1][1].lower():
                 # the indexed vector is the result vector, the index is idx - 1
                 tkbb = tk[3]
@@ -118,6 +115,9 @@ def run(ctx):
                 detail = "vector is the result vector: %s, index is idx-1: %s (%s)" % (vec_ok, idx_ok, M.term_str(i)[:120])
         ctx.ob("R13.1", "stage-stdin=ret[idx-1].stdout.take()", ok, pp.loc(bb), "stage stdin must be the read end taken out of the previous stage: " + detail)
         e, _ = cond_edges(pp, T, lambda c: (1 if c[1] == "Ne" else -1) if (c[0] == "bin" and c[1] in ("Ne", "Eq") and is_idx(c[2]) and const_of(c[3]) == 0) else 0)
+        if last_form:
+            # "there is a previous stage" asked of the vector itself
+            e = list(e) + variant_edges(pp, T, lambda t_: t_[0] == "call" and t_[1].endswith("::last_mut"), 1, [0, 1], "std::option::Option<")
         ctx.ob("R13.1", "stage-stdin.under-idx!=0", dominated_by_edges(pp, bb, e, start=nxt[0][0]), pp.loc(bb), "the hand-over applies to every stage but the first (guard idx != 0)")
     # stdout = Pipe for all but the last
     so = [(bb, t) for bb, t in pp.calls(loop) if M.callee_str(t["f"]) == "builder::exec::Exec::stdout"]
@@ -161,8 +161,11 @@ def run(ctx):
                 d = M.noref(r[2][0][2][0])
                 if d[0] == "call" and d[1].endswith("::drain") and M.noref(d[2][0]) == ("field", selfp, "cmds"):
                     rng = d[2][1]
+            cmds_ = ("field", selfp, "cmds")
+            took_first = r[0] == "call" and r[1] == "std::vec::Vec::<T, A>::remove" and M.noref(r[2][0]) == cmds_ and const_of(r[2][1]) == 0
+            took_last = r[0] == "call" and r[1].endswith("::unwrap") and r[2][0][0] == "call" and r[2][0][1] == "std::vec::Vec::<T, A>::pop" and M.noref(r[2][0][2][0]) == cmds_
             if where == "first":
-                okr = rng is not None and rng[0] == "agg" and rng[1][1] == "std::ops::RangeTo" and const_of(rng[2][0]) == 1
+                okr = (rng is not None and rng[0] == "agg" and rng[1][1] == "std::ops::RangeTo" and const_of(rng[2][0]) == 1) or took_first
                 # re-inserted at 0
                 ins = [(b2, t2) for b2, t2 in pp.calls() if M.callee_str(t2["f"]) == "std::vec::Vec::<T, A>::insert"]
                 okr = okr and len(ins) == 1 and const_of(T.operand(ins[0][1]["args"][1])) == 0 and T.operand(ins[0][1]["args"][2])[:2] == ("call", meth) \
@@ -173,6 +176,7 @@ def run(ctx):
                     st = rng[2][0]
                     st = st[1] if st[0] == "field" else st
                     okr = st[0] == "bin" and st[1] in ("Sub", "SubWithOverflow") and const_of(st[3]) == 1 and st[2][0] == "call" and st[2][1] == "std::vec::Vec::<T, A>::len"
+                okr = okr or took_last
                 pu = [(b2, t2) for b2, t2 in pp.calls() if b2 not in loop and M.callee_str(t2["f"]) == "std::vec::Vec::<T, A>::push"]
                 okr = okr and len(pu) == 1 and T.operand(pu[0][1]["args"][1])[:2] == ("call", meth) and M.noref(T.operand(pu[0][1]["args"][0])) == ("field", selfp, "cmds")
             detail = "argument is self.%s: %s; applied to the %s element and put back in place: %s" % (field, ok, where, okr)
@@ -360,13 +364,32 @@ def run(ctx):
         a = [Ts.operand(x) for x in cc[0][1]["args"]]
         vterm = None
 
-        def sel(t, field):
-            if not (t[0] == "call" and t[1] == "std::option::Option::<T>::take"):
+        def is_started(v):
+            """the vector of started stages: start()'s Ok payload"""
+            return M.contains(v, lambda u: u[0] == "call" and u[1] == "builder::pipeline::Pipeline::start")
+
+        def seq(v):
+            """which part of the started-stages vector a slice term denotes: 'all', 'tail' (all but the first), 'init' (all but the last)"""
+            v = M.noref(v)
+            while v[0] == "call" and (v[1].endswith("::deref_mut") or v[1].endswith("::deref") or v[1].endswith("as_mut_slice") or v[1].endswith("as_mut")):
+                v = M.noref(v[2][0])
+            if v[0] == "field" and v[2] in ("0", "1") and v[1][0] == "call" and v[1][1].endswith("::unwrap"):
+                c_ = M.noref(v[1][2][0])
+                if c_[0] == "call" and c_[1].endswith("::split_first_mut") and v[2] == "1" and seq(c_[2][0]) == "all":
+                    return "tail"
+                if c_[0] == "call" and c_[1].endswith("::split_last_mut") and v[2] == "1" and seq(c_[2][0]) == "all":
+                    return "init"
                 return None
-            s = M.noref(t[2][0])
-            if not (s[0] == "field" and s[2] == field):
-                return None
-            e = s[1]
+            if v[0] == "field" and v[1][0] == "downcast" and v[1][2] == "Ok" and is_started(v):
+                return "all"
+            if v[0] == "call" and v[1].endswith("::unwrap") and is_started(v) and not M.contains(v, lambda u: u[0] == "call" and "split_" in u[1]):
+                return "all"
+            return None
+
+        def which(e):
+            """'first' / 'last': which started stage the element term e denotes (a pipeline has at least two stages, so the last of the
+            tail and the first of the init are the last and the first of the whole)"""
+            e = M.noref(e)
             if e[0] == "call" and "index" in e[1].lower():
                 if const_of(e[2][1]) == 0:
                     return "first"
@@ -374,7 +397,29 @@ def run(ctx):
                 i = i[1] if i[0] == "field" else i
                 if i[0] == "bin" and i[1] in ("Sub", "SubWithOverflow") and const_of(i[3]) == 1 and M.contains(i[2], lambda u: u[0] == "call" and u[1] == "std::vec::Vec::<T, A>::len"):
                     return "last"
+                return None
+            if e[0] == "call" and e[1].endswith("::unwrap"):
+                c_ = M.noref(e[2][0])
+                if c_[0] == "call" and c_[1].endswith("::first_mut") and seq(c_[2][0]) in ("all", "init"):
+                    return "first"
+                if c_[0] == "call" and c_[1].endswith("::last_mut") and seq(c_[2][0]) in ("all", "tail"):
+                    return "last"
+                return None
+            if e[0] == "field" and e[2] == "0" and e[1][0] == "call" and e[1][1].endswith("::unwrap"):
+                c_ = M.noref(e[1][2][0])
+                if c_[0] == "call" and c_[1].endswith("::split_first_mut") and seq(c_[2][0]) == "all":
+                    return "first"
+                if c_[0] == "call" and c_[1].endswith("::split_last_mut") and seq(c_[2][0]) == "all":
+                    return "last"
             return None
+
+        def sel(t, field):
+            if not (t[0] == "call" and t[1] == "std::option::Option::<T>::take"):
+                return None
+            s = M.noref(t[2][0])
+            if not (s[0] == "field" and s[2] == field):
+                return None
+            return which(s[1])
         s0, s1 = sel(a[0], "stdin"), sel(a[1], "stdout")
         e2 = a[2][0] == "agg" and a[2][1][:3] == ("adt", "std::option::Option", "Some") and a[2][2][0][0] == "field" and a[2][2][0][2] == "0" and M.strip(a[2][2][0][1])[:2] == ("call", "popen::os::make_pipe")
         wr = sc.calls_to(lambda f: M.callee_str(f) == "builder::pipeline::Pipeline::stderr_to")
